@@ -168,6 +168,30 @@ def rule_dims(ctx, py):
         for n in cmp_:
             got.append((n, fold_dims(py, n.comparators[0], f), "self.units_system"))
         ctx.need(got, R, "%s: no dimensioned construction found" % q)
+        # every path of the setter stores a value that went through one of these constructions (or through an explicit comparison
+        # of its dimension): a branch that keeps a ready-made quantity as it is accepts any dimension
+        stores = []
+
+        def on_store(node, facts, stores=stores):
+            if isinstance(node, ast.Assign) and any(pyfe.src(t).startswith("self._") for t in node.targets):
+                stores.append((node, set(facts)))
+        pya.must_facts(f, on_stmt=on_store)
+        built = {id(c_) for c_, _, _ in got}
+        names_built = {pyfe.src(a.targets[0]) for a in ast.walk(f) if isinstance(a, ast.Assign) and len(a.targets) >= 1 and
+                       any(id(x) in built for x in ast.walk(a.value))}
+        for node, facts in stores:
+            via = any(id(x) in built for x in ast.walk(node.value)) or \
+                (isinstance(node.value, ast.Name) and node.value.id in names_built) or \
+                any(isinstance(x, ast.Name) and x.id in names_built for x in ast.walk(node.value))
+            cmpd = any(isinstance(a, str) and ".dim ==" in a.replace("units.dim", ".dim") and pol is True for a, pol in facts) or \
+                any(isinstance(a, str) and "units.dim" in a and pol is True for a, pol in facts)
+            sentinel = isinstance(node.value, ast.Constant) or (isinstance(node.value, ast.Name) and any(
+                isinstance(a, str) and pol is True and a.startswith(node.value.id + " == '") for a, pol in facts)) or \
+                (isinstance(node.value, ast.Name) and any(isinstance(a, str) and pol is True and a in (
+                    node.value.id + " is None", "isnone(%s)" % node.value.id) for a, pol in facts))
+            ctx.check(via or cmpd or sentinel, R, node, q, pyfe.src(node)[:70], "stored after the dimension test", "`%s` keeps the value without "
+                      "building it with the field's dimension or comparing its dimension: a quantity of another dimension is "
+                      "accepted as it is" % pyfe.src(node)[:50], nontrivial=False)
         for c, dims, sysx in got:
             ctx.check(dims == want, R, c, q, pyfe.src(c)[:80], "dimension %s" % (want,),
                       "the field is interpreted with dimension %s, expected %s: a quantity of the wrong dimension "
